@@ -62,14 +62,14 @@ def run(ctx):
       # the storing thread parked right before taking the cache lock for its k-th store while the writer drains
       plans = [[('R', ('kind', 'acquire', k)), ('W', ('kind', 'release', wrel)), ('R', ('done',)), ('S', ('done',)), ('W', ('done',))]
                for k in range(2, len(r_ops) + 1) for wrel in (2, 4)]
-      n = writercheck.explore(ctx, wm, cfg, r_ops, set(), pre, bound=ctx.pick(1, 2), nrandom=ctx.pick(10, 100),
-                              limit=ctx.pick(70, 1200), sink=col, plans=plans)
+      n = writercheck.explore(ctx, wm, cfg, r_ops, set(), pre, bound=ctx.pick(1, 2), nrandom=ctx.pick(10, 60),
+                              limit=ctx.pick(70, 600), sink=col, plans=plans)
       ctx.evaluations += n
       ncalls = max(1, sum(1 for e in col.traces[-1]['ev'] if e['k'] == 'db'))
       for f in range(min(ncalls, ctx.pick(8, 14))):
-        n = writercheck.explore(ctx, wm, cfg, r_ops, {f}, pre, bound=0, nrandom=ctx.pick(2, 12), limit=20, sink=col)
+        n = writercheck.explore(ctx, wm, cfg, r_ops, {f}, pre, bound=0, nrandom=ctx.pick(2, 8), limit=20, sink=col)
         ctx.evaluations += n
-      for _ in range(ctx.pick(3, 40)):
+      for _ in range(ctx.pick(3, 24)):
         k = ctx.rng.choice([2, 2, 3])
         fs = set(ctx.rng.sample(range(ncalls + 2), min(k, ncalls + 2)))
         n = writercheck.explore(ctx, wm, cfg, r_ops, fs, pre, bound=0, nrandom=ctx.pick(2, 6), limit=10, sink=col)
@@ -82,7 +82,7 @@ def run(ctx):
   from . import tagsys
   wm.configure(None, None, None)
   tagsys.section(ctx, wm.writer)
-  writercheck.conformance(ctx, wm, col, nworkloads=ctx.pick(4, 18), nrandom=ctx.pick(15, 60), limit=ctx.pick(60, 400))
+  writercheck.conformance(ctx, wm, col, nworkloads=ctx.pick(4, 12), nrandom=ctx.pick(15, 50), limit=ctx.pick(60, 300))
   verdicts = writersys.judge(ctx, col.traces, 'C03 traces')
   writercheck.report(ctx, col, verdicts, 'C03')
   writercheck.negative_controls(ctx, col, verdicts)
